@@ -152,6 +152,9 @@ func run(c *fw.Ctx) {
 			{"mini", 9, []int{1, 2, 3}, []int{2}},
 			{"flat3", 14, []int{1, 2, 3, 4, 5}, []int{0, 1}},
 			{"person", 11, []int{1, 2, 3, 4}, []int{0, 1}},
+			{"one", 12, []int{1, 2, 3}, []int{0, 1, 2}},
+			{"oneopt", 12, []int{1, 2, 3}, []int{0, 1}},
+			{"onerep", 12, []int{1, 2, 3}, []int{0, 1}},
 		}
 	} else {
 		cfgs = []cfg{
@@ -159,6 +162,9 @@ func run(c *fw.Ctx) {
 			{"mini", 6, []int{1, 2, 3}, []int{2}},
 			{"flat3", 10, []int{1, 2, 3, 4}, []int{0, 1}},
 			{"person", 7, []int{1, 2, 3}, []int{1}},
+			{"one", 8, []int{1, 2, 3}, []int{0, 1, 2}},
+			{"oneopt", 8, []int{1, 2}, []int{0, 1}},
+			{"onerep", 8, []int{1, 2}, []int{1}},
 		}
 	}
 	var bd []string
